@@ -100,6 +100,9 @@ func init() {
 			out = append(out, Instance{Scenario: "reopen_life", Params: mustJSON(LifeParams{Oracle: "tuple", Segs: 2}), Bound: 0, Shards: 8, Note: "chains of transient ends and re-opens on changing history branches with late acknowledgements of earlier segments"})
 			out = append(out, Instance{Scenario: "c02_resume", Params: mustJSON(ResumeParams{Backend: "custom"}), Bound: 0, Shards: 2, Note: "start offsets (incl. auto-reset latest on vBuckets with a multi-entry fail-over log) name the history branch the stream is opened on"})
 			out = append(out, Instance{Scenario: "c08_rollback", Params: mustJSON(RollbackParams{}), Bound: 0, Shards: 8, Note: "after a rollback the offsets carry the vbUUID of the branch the stream runs on (multi-entry fail-over logs)"})
+			for _, mode := range []string{"infinite", "finite"} {
+				out = append(out, Instance{Scenario: "c15_start", Params: mustJSON(StartParams{Reset: "latest", Mode: mode}), Bound: 1, Shards: 4, Note: "start-up with autoReset=latest under single faults: a stream request that names a position names a branch of the vBucket's fail-over log (never a made-up vbUUID)"})
+			}
 			out = append(out, Instance{Scenario: "c06_reopen", Params: mustJSON(struct{}{}), Bound: 0, Note: "transient end, re-open answered with a rollback: the observer carries its old snapshot into the catch-up phase"})
 			return out
 		},
